@@ -174,9 +174,21 @@ def set_atom_names_atomistic(molecule, meta_graph=None):
             assert len(fragids) == 1
             fraglist[fragids[0]].append(node)
 
+    named = set()
     for meta_node, fragnodes in fraglist.items():
-        for idx, node in enumerate(fragnodes):
-            atomname = molecule.nodes[node]['element'] + str(idx)
-            molecule.nodes[node]['atomname'] = atomname
+        # an atom shared with an earlier fragment (squash operator) keeps the
+        # name it got there; the other atoms must not be given that name again
+        used = {molecule.nodes[node]['atomname'] for node in fragnodes if node in named}
+        idx = 0
+        for node in fragnodes:
+            if node not in named:
+                atomname = molecule.nodes[node]['element'] + str(idx)
+                while atomname in used:
+                    idx += 1
+                    atomname = molecule.nodes[node]['element'] + str(idx)
+                molecule.nodes[node]['atomname'] = atomname
+                named.add(node)
+            idx += 1
             if meta_graph:
+                atomname = molecule.nodes[node]['atomname']
                 meta_graph.nodes[meta_node]['graph'].nodes[node]['atomname'] = atomname
